@@ -104,7 +104,7 @@ impl Part for C11 {
                 let (enc, mut refctx) = match r1_setup_s(*suite, &m, &k.pk_r, &info, &k.ikm_e) {
                     Some(x) => x,
                     None => {
-                        out.fail("R1 setup failed");
+                        out.fail_machinery("R1 setup failed");
                         return out;
                     }
                 };
@@ -155,7 +155,7 @@ impl Part for C11 {
                 let (enc, refctx) = match r1_setup_s(*suite, &m, &k.pk_r, &info, &k.ikm_e) {
                     Some(x) => x,
                     None => {
-                        out.fail("R1 setup failed");
+                        out.fail_machinery("R1 setup failed");
                         return out;
                     }
                 };
@@ -192,7 +192,7 @@ impl Part for C11 {
                 let (enc, _refctx) = match r1_setup_s(*suite, &m, &k.pk_r, &info, &k.ikm_e) {
                     Some(x) => x,
                     None => {
-                        out.fail("R1 setup failed");
+                        out.fail_machinery("R1 setup failed");
                         return out;
                     }
                 };
